@@ -35,6 +35,26 @@ fn pwhash(i: &Input) -> Outcome {
     }
 }
 
+/// Argon2i with fewer passes than libsodium's high-level API admits (dryoc accepts t = 1, 2): whatever dryoc returns as Ok
+/// must be RFC 9106 for exactly the requested pass count (oracle: libsodium's Argon2 core)
+fn pwhash_low_passes(i: &Input) -> Outcome {
+    let alg = i.num("alg");
+    let (outlen, ops, mem) = (i.num("outlen") as usize, i.num("ops"), i.num("mem") as usize);
+    let (pw, salt) = (i.get("pw"), i.arr::<16>("salt"));
+    let (dalg, salg) = match alg {
+        1 => (PasswordHashAlgorithm::Argon2i13, so::ALG_ARGON2I13),
+        _ => (PasswordHashAlgorithm::Argon2id13, so::ALG_ARGON2ID13),
+    };
+    let mut out = vec![0u8; outlen];
+    if crypto_pwhash(&mut out, pw, &salt, ops, mem, dalg).is_err() {
+        return Ok(());
+    }
+    match so::argon2_core(outlen, pw, &salt, ops as u32, (mem / 1024) as u32, salg) {
+        Some(w) => eq("crypto_pwhash output (vs libsodium's Argon2 core)", &w, &out),
+        None => Ok(()),
+    }
+}
+
 /// Object API: hash_with_salt equals libsodium, verify accepts the password
 /// and rejects another one.
 fn pwhash_object(i: &Input) -> Outcome {
@@ -296,6 +316,7 @@ fn pwhash_config_builder(i: &Input) -> Outcome {
 
 pub const C09: Registry = &[
     ("pwhash", pwhash),
+    ("pwhash_low_passes", pwhash_low_passes),
     // memory sizes whose segment length (m/4 blocks) is above 128 and not a multiple of 128: the data-independent
     // addressing of Argon2i / Argon2id (pass 0, slices 0-1) uses a partly filled last address block
     ("pwhash_partial_address_block", pwhash),
@@ -340,6 +361,8 @@ pub fn c09(ctx: &mut Ctx) -> Search {
                     // libsodium only accepts Argon2i with at least 3 passes
                     if ops >= 3 {
                         ctx.run("pwhash", mk(1, *outlen, &pw, &salt, ops, m * 1024))?;
+                    } else {
+                        ctx.run("pwhash_low_passes", mk(1, *outlen, &pw, &salt, ops, m * 1024))?;
                     }
                 }
             }
